@@ -282,6 +282,56 @@ def _cell(rows: T, col) -> T:
     return T("cell", rows, col)
 
 
+def _arange_rows(m: T) -> T:
+    """points[np.arange(a, b, s) (+ c)] is the slice points[a+c : b+c : s];
+    bounds are written relative to the array's own length the way slices
+    are (len(points) - 1 -> -1, len(points) -> open end, 0 -> open start)"""
+    from ..lib import linear
+    if m.op != "sub":
+        return m
+    base, ix = m.args
+    ix = Interp.unname(ix)
+    off = 0
+    if ix.op == "binop" and ix.args[0] == "Add":
+        for a_, b_ in ((ix.args[1], ix.args[2]), (ix.args[2], ix.args[1])):
+            if tm.is_const(b_) and type(tm.const_val(b_)) is int and \
+                    is_call_to(Interp.unname(a_), "numpy.arange"):
+                ix, off = Interp.unname(a_), tm.const_val(b_)
+                break
+    if not is_call_to(ix, "numpy.arange") or ix.args[2]:
+        return m
+    a = list(ix.args[1])
+    if len(a) == 1:
+        lo, hi, st = const(0), a[0], tm.NONE
+    elif len(a) == 2:
+        lo, hi, st = a[0], a[1], tm.NONE
+    elif len(a) == 3:
+        lo, hi, st = a
+    else:
+        return m
+    n = tm.call(tm.glob("builtins.len"), (base,), ())
+
+    def bound(x: T, is_hi: bool) -> Optional[T]:
+        lf = linear(x)
+        if lf is None:
+            return None
+        lf = dict(lf)
+        lf[1] = lf.get(1, 0) + off
+        k = lf.pop(1, 0)
+        if not lf:                        # a plain number
+            if not is_hi and k == 0:
+                return tm.NONE
+            return const(k)
+        if lf == {n: 1} and is_hi:        # len(points) + k
+            return tm.NONE if k == 0 else (const(k) if k < 0 else None)
+        # len(points) - <symbol>: kept symbolic (not the canonical bound)
+        return T("binop", "Add", x, const(off)) if off else x
+    lo2, hi2 = bound(lo, False), bound(hi, True)
+    if lo2 is None or hi2 is None:
+        return m
+    return tm.sub(base, T("slice", lo2, hi2, st))
+
+
 def _rows_cols(m: T):
     """(rows, [columns]) of  points[rowslice][:, [c..]]  /
     points[:, [c..]][rowslice]  (np.asarray looked through)"""
@@ -301,6 +351,9 @@ def _rows_cols(m: T):
             cols = [x.args[1] for x in c.args]
         elif ix.op == "slice" and sl is None:
             sl = ix
+        elif sl is None and _arange_rows(m) is not m:
+            m = _arange_rows(m)
+            sl = m.args[1]
         else:
             return None
         m = Interp.unname(m.args[0])
